@@ -26,6 +26,8 @@ structure Est (α : Type u) where
   targets : Option (List (List α))
   w : List α                    -- the constructor's per-receptor weights (fixed)
   W : Weights α                 -- the weights a fit uses: `register_targets(B, W)` stores `W`, or `w` when `W` is not given
+  workB : Option (List (List α))   -- `self.B`: the working copy a later `fit()` / `in_hull()` without arguments uses;
+                                   -- `register_targets` sets it to the targets, `fit()` overwrites it with the fitted capture
 
 /-- registration calls (arguments already as arrays; `none` = argument not given) -/
 inductive RegOp (α : Type u) where
@@ -36,6 +38,9 @@ inductive RegOp (α : Type u) where
   | backgroundAdaptation (background : List α) (addBaseline add : Bool)
   | systemAdaptation (x : List α) (addBaseline add : Bool)
   | targets (B : List (List α)) (W : Option (Weights α))
+  /-- `fit()` of the registered targets. The solver is an external engine: its fitted capture `pred` is a parameter of the
+      model (supplied by the implementation in the correspondence); what the model fixes is WHERE it is stored. -/
+  | fitInternal (pred : List (List α))
 
 /-- closed-form read-only queries -/
 inductive Query (α : Type u) where
@@ -49,6 +54,7 @@ inductive Query (α : Type u) where
   | getBounds
   | getTargets
   | getWeights
+  | getWork
 
 inductive Answer (α : Type u) where
   | mat (m : List (List α))
@@ -65,7 +71,7 @@ variable {α : Type u} [Zero α] [One α] [Add α] [Sub α] [Mul α] [Div α] [L
 def Est.init (filters : List (List α)) (dom : Dom α) (K : Adapt α) (baseline : List α)
     (w : List α := filters.map (fun _ => 1)) : Est α :=
   { filters := filters, dom := dom, K := K, baseline := baseline, sources := none, A := none,
-    lb := [], ub := [], targets := none, w := w, W := .vec w }
+    lb := [], ub := [], targets := none, w := w, W := .vec w, workB := none }
 
 /-- `capture(signals)` on the filters' own domain: n_signals × n_filters -/
 def Est.capture (s : Est α) (signals : List (List α)) : List (List α) := Dreye.capture s.dom s.filters signals
@@ -100,7 +106,11 @@ def Est.register (s : Est α) : RegOp α → Option (Est α)
   | .targets B W =>
       match s.A with
       | none => none
-      | some _ => some { s with targets := some B, W := W.getD (.vec s.w) }
+      | some _ => some { s with targets := some B, W := W.getD (.vec s.w), workB := some B }
+  | .fitInternal pred =>
+      match s.A, s.workB with
+      | some _, some _ => some { s with workB := some pred }
+      | _, _ => none
 
 /-- a read-only query: the state is not an output — queries cannot change it -/
 def Est.answer (s : Est α) : Query α → Answer α
@@ -119,6 +129,7 @@ def Est.answer (s : Est α) : Query α → Answer α
   | .getBounds => .bounds s.lb s.ub
   | .getTargets => match s.targets with | none => .notRegistered | some B => .mat B
   | .getWeights => .weights s.W
+  | .getWork => match s.workB with | none => .notRegistered | some B => .mat B
 
 /-- a whole history of registration calls (stops at the first asserting call) -/
 def Est.run (s : Est α) : List (RegOp α) → Option (Est α)
@@ -139,15 +150,16 @@ structure Reg (α : Type u) where
   targets : Option (List (List α))
   w : List α
   W : Weights α
+  workB : Option (List (List α))
 
 def Est.abs (s : Est α) : Reg α :=
   { filters := s.filters, dom := s.dom, K := s.K, baseline := s.baseline, sources := s.sources,
-    lb := s.lb, ub := s.ub, targets := s.targets, w := s.w, W := s.W }
+    lb := s.lb, ub := s.ub, targets := s.targets, w := s.w, W := s.W, workB := s.workB }
 
 /-- the stateless reference: answers computed from registered values only (A recomputed from scratch) -/
 def Reg.answer (r : Reg α) (q : Query α) : Answer α :=
   Est.answer { filters := r.filters, dom := r.dom, K := r.K, baseline := r.baseline, sources := r.sources,
                A := r.sources.map (systemA r.dom r.filters), lb := r.lb, ub := r.ub, targets := r.targets,
-               w := r.w, W := r.W } q
+               w := r.w, W := r.W, workB := r.workB } q
 
 end Dreye
